@@ -138,6 +138,13 @@ class FileWeave:
                 return cur
             cur = p
 
+    def top_stmt_of(self, fnnode, n):
+        """the top-level statement of fnnode that contains node n"""
+        for st in self.top_stmts(fnnode):
+            if st["span"][0] <= n["span"][0] and n["span"][1] <= st["span"][1]:
+                return st
+        raise WeaveError("%s: node at line %d is not inside `%s`" % (self.rel, self.line_of(n["span"][0]), self.fn_qualname(fnnode)))
+
     def top_stmts(self, fnnode):
         return [n for n in self.children.get(fnnode["id"], []) if n["kind"] in ("let", "stmt_expr", "stmt_macro", "fn", "struct", "impl", "enum", "use", "item_other")]
 
@@ -243,7 +250,7 @@ class FileWeave:
                     pos = m.e
                     i = bisect.bisect_left(points, pos)
                     continue
-                for x in sorted(ins_at.get(pos, []), key=lambda x: x.seq):
+                for x in sorted(ins_at.get(pos, []), key=lambda x: (x.meta.get("prio", 0), x.seq)):
                     emit_text(x.text, x.eid)
                 if pos in rep_at:
                     r = rep_at[pos]
